@@ -439,9 +439,9 @@ func (u *Unit) panicProps() []string {
 			return nil
 		}
 		// the properties that speak about crashes: C13 always; C09 and C11 (no crash), C04 (every other situation returns
-		// false) and C16 (creation succeeds or fails with an error) where the function serves them
+		// false), C16 (creation succeeds or fails with an error), C15 and C17 (total functions) where the function serves them
 		for _, t := range fc.Tags {
-			if t == "C09" || t == "C11" || t == "C04" || t == "C16" {
+			if t == "C09" || t == "C11" || t == "C04" || t == "C16" || t == "C15" || t == "C17" {
 				props = append(props, t)
 			}
 		}
